@@ -601,18 +601,139 @@ def renamed_contract(c, mapping):
     return c2
 
 
+def _loops_of(node):
+    return sorted((n for n in ast.walk(node) if isinstance(n, (ast.For, ast.While))), key=lambda n: (n.lineno, n.col_offset))
+
+
+def accumulator_loops(node):
+    """loops that only build a list or a sum and are directly preceded by the initialisation of the accumulator:
+         X = []   ; for T in IT: X.append(E)            ->  X = [E for T in IT]
+         X = []   ; for T in IT: if C: X.append(E)      ->  X = [E for T in IT if C]
+         X = 0    ; for T in IT: X += E                 ->  X = sum(E for T in IT)
+         X = array(TC) ; for T in IT: [if C:] X.append(E)   ->  X = array(TC, [E for T in IT [if C]])
+       returns [(block (list of statements), index of the initialisation, replacement Assign)]"""
+    out = []
+    for parent in ast.walk(node):
+        for fld in ("body", "orelse", "finalbody"):
+            block = getattr(parent, fld, None)
+            if not isinstance(block, list):
+                continue
+            for i in range(len(block) - 1):
+                a, f = block[i], block[i + 1]
+                if not (isinstance(a, ast.Assign) and len(a.targets) == 1 and isinstance(a.targets[0], ast.Name)
+                        and isinstance(f, ast.For) and not f.orelse and len(f.body) == 1):
+                    continue
+                x = a.targets[0].id
+                st_ = f.body[0]
+                cond = None
+                if isinstance(st_, ast.If) and not st_.orelse and len(st_.body) == 1:
+                    cond, st_ = st_.test, st_.body[0]
+                uses_x = lambda e: any(isinstance(n, ast.Name) and n.id == x for n in ast.walk(e))   # noqa: E731
+                new = None
+                empty_list = isinstance(a.value, ast.List) and not a.value.elts
+                # array(TC) with no initialiser is an empty typed array: the result is array(TC, [ ... ])
+                empty_array = isinstance(a.value, ast.Call) and isinstance(a.value.func, ast.Name) and a.value.func.id == "array" \
+                    and len(a.value.args) == 1 and not a.value.keywords
+                if (empty_list or empty_array) and isinstance(st_, ast.Expr) \
+                        and isinstance(st_.value, ast.Call) and isinstance(st_.value.func, ast.Attribute) \
+                        and st_.value.func.attr == "append" and isinstance(st_.value.func.value, ast.Name) \
+                        and st_.value.func.value.id == x and len(st_.value.args) == 1 and not st_.value.keywords:
+                    e = st_.value.args[0]
+                    if not uses_x(e) and not uses_x(f.iter) and not (cond is not None and uses_x(cond)):
+                        comp = ast.ListComp(elt=e, generators=[ast.comprehension(target=f.target, iter=f.iter,
+                                                                                   ifs=[cond] if cond is not None else [], is_async=0)])
+                        if empty_array:
+                            comp = ast.Call(func=a.value.func, args=[a.value.args[0], comp], keywords=[])
+                        new = ast.Assign(targets=a.targets, value=comp)
+                elif isinstance(a.value, ast.Constant) and a.value.value == 0 and cond is None and isinstance(st_, ast.AugAssign) \
+                        and isinstance(st_.op, ast.Add) and isinstance(st_.target, ast.Name) and st_.target.id == x:
+                    e = st_.value
+                    if not uses_x(e) and not uses_x(f.iter):
+                        gen = ast.GeneratorExp(elt=e, generators=[ast.comprehension(target=f.target, iter=f.iter, ifs=[], is_async=0)])
+                        new = ast.Assign(targets=a.targets, value=ast.Call(func=ast.Name(id="sum", ctx=ast.Load()), args=[gen], keywords=[]))
+                if new is not None:
+                    out.append((block, i, ast.fix_missing_locations(ast.copy_location(new, f))))
+    return out
+
+
+def fold_loops(fi, picks):
+    """a copy of the function in which the picked accumulator loops (indices into accumulator_loops of the copy) are
+    replaced by the comprehension they compute"""
+    import copy
+    node = copy.deepcopy(fi.node)
+    cands = accumulator_loops(node)
+    for k in sorted(picks, key=lambda k_: -cands[k_][1]):
+        block, i, new = cands[k]
+        block[i:i + 2] = [new]
+    f2 = FuncInfo(node, fi.module, fi.cls, fi.kind, fi.path)
+    return f2
+
+
 def verify_one(eng, key, ctx=None, timeout_ms=30000, alias=None):
+    """verify contract `key`; if the body has MORE loops than the contract annotates (a comprehension was rewritten as
+    an explicit accumulator loop), the surplus is looked for among the loops of the shape `X = []; for ..: X.append(E)` /
+    `X = 0; for ..: X += E`, which are executed as the comprehension they compute (a checked guess: accepted only if every
+    obligation is then proved); any other mismatch between the loops of the body and the loops of the contract is
+    outside the subset - attaching an invariant to the wrong loop would report unprovable obligations."""
+    if key in LEMMAS or key not in CONTRACTS:
+        return verify_renamed(eng, key, ctx, timeout_ms, alias)
+    c = CONTRACTS[key]
+    fi = find_impl(eng.repo, c, ctx)
+    if fi is None or c.trusted or c.bounded_only:
+        return verify_renamed(eng, key, ctx, timeout_ms, alias)
+    nloops, want = len(_loops_of(fi.node)), len(c.loops)
+    if nloops == want:
+        return verify_renamed(eng, key, ctx, timeout_ms, alias)
+    res = FuncResult(key, ctx)
+    res.file, res.span = fi.path, fi.span
+    d = nloops - want
+    cands = accumulator_loops(fi.node)
+    if d > 0 and len(cands) >= d:
+        import itertools
+        for tried, picks in enumerate(itertools.combinations(range(len(cands)), d)):
+            if tried >= 6:
+                break
+            r = verify_renamed(eng, key, ctx, min(timeout_ms, 10000) if len(cands) > d else timeout_ms, alias, fold_loops(fi, picks))
+            if not r.unsupported and not r.error and r.obligations and all(o["status"] == "proved" for o in r.obligations):
+                r.lib_used = sorted(set(r.lib_used) | {f"{key}: {d} accumulator loop(s) (X = []; for ..: X.append(E) / X = 0; for ..: "
+                                                       "X += E) executed as the comprehension they compute"})
+                return r
+            if len(cands) == d:
+                return r          # the only possible reading: its verdict (failed obligations included) stands
+    if d < 0:
+        # FEWER loops than annotated (a loop was rewritten as a comprehension, or removed): the loops that are left keep
+        # their order; which annotated loops they are is again a checked guess
+        import copy
+        import itertools
+        keep_sets = list(itertools.combinations(range(want), nloops))[:6]
+        ords = sorted(c.loops)
+        for keep in keep_sets:
+            c2 = copy.copy(c)
+            c2.loops = {i: c.loops[ords[k]] for i, k in enumerate(keep)}
+            r = verify_renamed(eng, key, ctx, timeout_ms if len(keep_sets) == 1 else min(timeout_ms, 10000), alias, None, c2)
+            if not r.unsupported and not r.error and r.obligations and all(o["status"] == "proved" for o in r.obligations):
+                r.lib_used = sorted(set(r.lib_used) | {f"{key}: the body has {nloops} of the {want} loops the contract annotates; "
+                                                       f"invariants of the annotated loops {[ords[k] for k in keep]} used"})
+                return r
+            if len(keep_sets) == 1:
+                return r
+    res.unsupported = (f"the body has {nloops} loops, the contract annotates {want} ({len(cands)} of the loops are plain "
+                       "accumulator loops): the invariants cannot be attached to the right loops")
+    return res
+
+
+def verify_renamed(eng, key, ctx=None, timeout_ms=30000, alias=None, fi_override=None, c_override=None):
     """verify contract `key`.  If its loop invariants mention locals the body no longer has (a harmless renaming of a
     local), the invariants are tried under each assignment of the missing names to unmentioned locals of the body; an
     assignment is accepted only if every obligation is then PROVED (the guess is checked, so this cannot make a wrong
     body verify with a wrong invariant: any invariant that is proved inductive and strong enough is a valid one)."""
     if key in LEMMAS or key not in CONTRACTS:
         return _verify_with(eng, key, ctx, timeout_ms, alias, None)
-    c = CONTRACTS[key]
-    fi = find_impl(eng.repo, c, ctx)
+    c = c_override or CONTRACTS[key]
+    fi = fi_override or find_impl(eng.repo, c, ctx)
     missing, cands = missing_locals(eng, c, fi)
     if not missing:
-        return _verify_with(eng, key, ctx, timeout_ms, alias, None)
+        return _verify_with(eng, key, ctx, timeout_ms, alias, c_override, fi_override)
     import itertools
     tried = 0
     if len(missing) <= 3 and len(cands) >= len(missing):
@@ -621,7 +742,7 @@ def verify_one(eng, key, ctx=None, timeout_ms=30000, alias=None):
             if tried > 24:
                 break
             mapping = dict(zip(missing, perm))
-            r = _verify_with(eng, key, ctx, min(timeout_ms, 10000), alias, renamed_contract(c, mapping))
+            r = _verify_with(eng, key, ctx, min(timeout_ms, 10000), alias, renamed_contract(c, mapping), fi_override)
             if not r.unsupported and not r.error and r.obligations and all(o["status"] == "proved" for o in r.obligations):
                 r.lib_used = sorted(set(r.lib_used) | {f"contract of {key}: invariants written for locals {missing} "
                                                        f"applied to the locals {list(perm)} of the current body "
@@ -635,7 +756,7 @@ def verify_one(eng, key, ctx=None, timeout_ms=30000, alias=None):
     return res
 
 
-def _verify_with(eng, key, ctx, timeout_ms, alias, override):
+def _verify_with(eng, key, ctx, timeout_ms, alias, override, fi_override=None):
     variant = None
     if isinstance(alias, dict):
         variant, alias = alias, None
@@ -653,7 +774,7 @@ def _verify_with(eng, key, ctx, timeout_ms, alias, override):
         fi = None
     else:
         c = override or CONTRACTS[key]
-        fi = find_impl(eng.repo, c, ctx)
+        fi = fi_override or find_impl(eng.repo, c, ctx)
         if fi is None:
             res.unsupported = f"function {key} (receiver {ctx}) not found in the working tree"
             return res
